@@ -92,7 +92,13 @@ OnSend(mm, e, meta) ==
                 \cup (IF single /\ q.sends > 0 /\ ~q.net /\ e.t < q.last + meta.T
                       THEN (IF mm.ucHist THEN {"OBS.StaleTimerAfterUserCancel"}
                             ELSE {"C05.FullTimeout"} \cup (IF mm.hist THEN {"C10.NextWorks"} ELSE {})) ELSE {})
-                \cup (IF q.expect.kind # "none" THEN {"C04.SendAfterDecision"} ELSE {})
+                \* transmitting again although the answer that decides the request has arrived: also a failure of the
+                \* property that made the answer decisive
+                \cup (IF q.expect.kind # "none"
+                      THEN {"C04.SendAfterDecision",
+                            IF q.expect.kind = "rej" THEN "C08.RejectImmediate"
+                            ELSE IF Len(q.expect.fs) = 2 THEN "C07.Reassembly" ELSE "C02.AcceptedDelivered"}
+                      ELSE {})
                 \* C07: while the head of an answer is buffered, its second piece has one timeout to arrive
                 \cup (IF single /\ q.hasBuf /\ ~q.dirty /\ e.t < q.bufT + meta.T
                       THEN {IF mm.ucHist THEN "OBS.StaleTimerAfterUserCancel" ELSE "C07.WaitForSecondPiece"} ELSE {})
@@ -195,7 +201,7 @@ OnRet(mm, e, meta) ==
         \* short: outside the histories C05 quantifies over, reported as an observation
         v5 == IF silent /\ ~silentOk
               THEN IF mm.ucHist THEN {"OBS.StaleTimerAfterUserCancel"}
-                   ELSE IF mm.hist THEN {"C05.SilentAfterHistory"} ELSE {"C04.Silent"}
+                   ELSE IF mm.hist THEN {"C05.SilentAfterHistory", "C04.Silent"} ELSE {"C04.Silent"}
               ELSE {}
         \* (for a request that is not the first on this object this is also C10's "the next request works": something left
         \* over from the history - a stale timer, a dead transport - cut an attempt short)
